@@ -44,7 +44,7 @@ pub fn drive<T>(cx: &Arc<AgentCtx>, mut fut: BoxFut<T>) -> Result<T, ()> {
 fn lock_outcome(cx: &Arc<AgentCtx>, out: LockOut) -> Outcome {
     match out {
         LockOut::Guard(g) => {
-            let (gid, k, v) = cx.run.adopt(g);
+            let (gid, k, v) = cx.adopt(g);
             Outcome::Guard(gid, k, v)
         }
         LockOut::TryFail => Outcome::TryFail,
@@ -78,7 +78,7 @@ pub fn body_for(call: Call, cont: Cont, owned: bool) -> Body {
         }),
         Call::Expire(d) => Box::new(move |cx| {
             let gs = cont.expire(owned, d);
-            Outcome::Expired(gs.into_iter().map(|g| cx.run.adopt(g)).collect())
+            Outcome::Expired(gs.into_iter().map(|g| cx.adopt(g)).collect())
         }),
         Call::Count => Box::new(move |_| Outcome::Count(cont.count())),
         Call::Keys => Box::new(move |_| Outcome::Keys(cont.keys())),
@@ -96,7 +96,7 @@ pub fn body_for(call: Call, cont: Cont, owned: bool) -> Body {
                         let mut tcx = Context::from_waker(&waker);
                         let r = match stream.as_mut().poll_next(&mut tcx) {
                             Poll::Ready(Some(g)) => {
-                                let (gid, k, v) = cx.run.adopt(g);
+                                let (gid, k, v) = cx.adopt(g);
                                 PollResult::Item(gid, k, v)
                             }
                             Poll::Ready(None) => PollResult::End,
